@@ -914,6 +914,13 @@ func stateFoundArrayEnd(s *Scanner) state {
 // such as after reading `{}` or `[1,2,3]`.
 // Only space characters should be seen now.
 func stateEndTop(s *Scanner, c byte) state {
+	if s.hasTrailingCharacters {
+		// The previous byte didn't belong to the schema: whatever follows it
+		// (a line break, an annotation) doesn't belong to the schema either.
+		s.found(lexeme.EndTop)
+		return scanContinue
+	}
+
 	switch {
 	case s.isNewLine(c):
 		s.found(lexeme.NewLine)
